@@ -217,6 +217,41 @@ class Prover:
             return "neg" if strict else "nonpos"
         return None
 
+    def homogenize(self, p, max_terms=20000):
+        """Sign normal form: for every named denominator inv(D), terms that
+        differ only in atoms of D are brought to the common power of inv(D)
+        (1 = D*inv(D)), so that e.g. 1 - B*inv(A+B) becomes A*inv(A+B)."""
+        N = self.N
+        invs = sorted({a for m in p.t for (a, _e) in m if a in N.inv_of})
+        for a in invs:
+            D = N.inv_of[a]
+            dats = D.atoms()
+            groups = {}
+            for m, c in p.t.items():
+                ctxm = tuple((x, e) for (x, e) in m if x != a and x not in dats)
+                cof = tuple((x, e) for (x, e) in m if x in dats)
+                ea = dict(m).get(a, 0)
+                groups.setdefault(ctxm, []).append((ea, cof, c))
+            out = Poly()
+            for ctxm, items in groups.items():
+                k = max(ea for (ea, _c, _v) in items)
+                if all(ea == k for (ea, _c, _v) in items) or k <= 0:
+                    for (ea, cof, c) in items:
+                        mm = list(ctxm) + list(cof) + ([(a, ea)] if ea else [])
+                        out = out + Poly({tuple(sorted(mm)): c})
+                    continue
+                acc = Poly()
+                for (ea, cof, c) in items:
+                    term_ = Poly({cof: c})
+                    if k - ea:
+                        term_ = term_ * D.pow(k - ea)
+                    acc = acc + term_
+                    if len(acc.t) > max_terms:
+                        raise Unsupported("homogenisation too large")
+                out = out + acc.mul_mono(tuple(sorted(list(ctxm) + [(a, k)])))
+            p = out
+        return p
+
     # ---- definitional facts of the atoms occurring in a set of polynomials
     def atom_defs(self, atoms_needed):
         out = []
@@ -269,10 +304,25 @@ class Prover:
         t0 = time.time()
         try:
             d = self.N.norm(a - b) if b is not None else self.N.norm(a)
+            return self.prove_ge_poly(d, strict=strict, extra_hyps=extra_hyps, t0=t0)
+        except Unsupported as e:
+            return "open", "field", f"unsupported: {e}", time.time() - t0, None
+
+    def prove_ge_poly(self, d, strict=False, extra_hyps=(), t0=None):
+        """normal-form polynomial d >= 0 (> 0 if strict)"""
+        t0 = t0 or time.time()
+        try:
             self.scan_facts()
             s = self.poly_sign(d)
             if s == "pos" or (not strict and s in ("nonneg", "zero")):
                 return "discharged", "field-sign", "", time.time() - t0, None
+            try:
+                dh = self.homogenize(d)
+                s = self.poly_sign(dh)
+                if s == "pos" or (not strict and s in ("nonneg", "zero")):
+                    return "discharged", "field-sign", "after raising to common denominators", time.time() - t0, None
+            except Unsupported:
+                pass
             goal = self.clear(d)
             g = goal > 0 if strict else goal >= 0
             need = set(d.atoms())
